@@ -554,7 +554,7 @@ def obs_record(d):
                fls(d["o_pe"]), fl(d["o_nfix"])))
 
 
-HDR = ["From Coq Require Import ZArith List Bool Floats.", "From Hermes Require Import Num CropModel CropNModel DevModel RootDistModel RadiaModel C09Corr.",
+HDR = ["From Coq Require Import ZArith List Bool Floats.", "From Hermes Require Import Num CropModel CropNModel DevModel RootDistModel RadiaModel SupplyModel C09Corr.",
        "Import ListNotations.", "Open Scope float_scope."]
 GROUPS = ["stage", "REDUK", "organs", "pool/biomass", "root-depth", "N-uptake", "bookkeeping", "GEHOB/WUGEH", "N-content-functions"]
 
@@ -754,6 +754,48 @@ def radia_correspond(ctx, corr, days, shard=300):
             corr.mismatches.append({"kind": "coverage", "what": "no traced day for the radia case " + need})
 
 
+def supply_correspond(ctx, corr, days, shard=200):
+    """supply terms (SupplyModel): MASS / DIFF of the uptake layers and maxup recomputed in Coq from the raw state and compared with the
+    values the uptake tie consumes (so the harness' mirror of crop.go:662-699 is itself checked against the model)"""
+    pts = [d for d in days if d["grown"] and "s_n" in d]
+    cls = ["MxVeg", "MxSM", "MxZR", "MxOther"]
+    def rec(d):
+        n = d["s_n"]
+        layers = "; ".join("{| sl_tp := %s; sl_c1 := %s; sl_wg := %s; sl_ad := %s; sl_e := %s; sl_wudich := %s |}"
+                           % (fl(d["s_tp"][i]), fl(d["s_c1"][i]), fl(d["s_wg"][i]), fl(d["s_ad"][i]), fl(d["s_e"][i]), fl(d["s_wud"][i])) for i in range(n))
+        return ("{| spo_zrk := %s; spo_pi := %s; spo_dz := %s; spo_dt := %s; spo_layers := [%s]; spo_class := %s; spo_phyllo := %s; spo_tendsum := %s; "
+                "spo_o_mass := %s; spo_o_diff := %s; spo_o_maxup := %s |}"
+                % (b(d["zrk"]), fl(d["r_pi"]), fl(d["dz"]), fl(d["dt"]), layers, cls[d["s_class"]], fl(d["s_phyllo"]), fl(d["s_tendsum"]),
+                   fls(d["mass"][:n]), fls(d["diff"][:n]), fl(d["maxup"])))
+    recs = [rec(d) for d in pts]
+    items = []
+    for k in range(0, len(recs), shard):
+        body = HDR + ["Definition cases : list supply_obs := [\n%s\n]." % ";\n".join(recs[k:k + shard]),
+                      "Definition M := Eval vm_compute in supply_mismatches %d%%nat cases." % k, "Print M."]
+        items.append(("Cases_c09supply_%d" % (k // shard), "\n".join(body) + "\n"))
+    for nm, rc2, o in ctx.coq_eval_many(items, timeout=900):
+        m = re.search(r"M\s*=\s*(.*?)\s*:\s*list \(nat \* nat\)", o, re.S)
+        if rc2 != 0 or not m:
+            corr.mismatches.append({"kind": "coq-eval", "shard": nm, "output": o[-1500:]})
+            continue
+        pairs = re.findall(r"\(\s*(\d+)(?:%nat)?\s*,\s*(\d+)(?:%nat)?\s*\)", m.group(1))
+        if m.group(1).strip() != "[]" and not pairs:
+            corr.mismatches.append({"kind": "coq-eval", "shard": nm, "output": o[-1500:]})
+        for idx, mask in pairs[:10]:
+            d = pts[int(idx)]
+            corr.mismatches.append({"kind": "supply-kernel", "differs": [n for j, n in enumerate(["MASS", "DIFF", "maxup"]) if int(mask) >> j & 1],
+                                    "crop": d["crop"], "zeit": d["zeit"], "line": d["line"],
+                                    "case": {k: d[k] for k in d if k.startswith("s_") or k in ("mass", "diff", "maxup")}})
+    corr.cases += len(recs)
+    corr.dist["supply-days"] = len(recs)
+    corr.dist["supply:layers"] = sum(d["s_n"] for d in pts)
+    for i_, c_ in enumerate(cls):
+        corr.dist["supply:maxup-class=" + c_] = sum(1 for d in pts if d["s_class"] == i_)
+    for need in ("MxSM", "MxZR", "MxOther", "MxVeg"):
+        if pts and not corr.dist["supply:maxup-class=" + need]:
+            corr.mismatches.append({"kind": "coverage", "what": "no traced day for the uptake-limit class " + need})
+
+
 def dl_run(ctx):
     return waterlib.run_harness(ctx, "c09dl", ["-seed", str(ctx.seed), "-n", "4000" if ctx.thorough else "500"])
 
@@ -824,6 +866,7 @@ def correspond(ctx):
     rootdist_correspond(ctx, c, days)
     assim_correspond(ctx, c, days)
     radia_correspond(ctx, c, days)
+    supply_correspond(ctx, c, days)
     seen = set()
     for d in days:
         c.bump("crop=" + d["crop"])
